@@ -180,3 +180,88 @@ func VerifC13_Handshake() {
 	}
 	vReached("end")
 }
+
+// vTimedRepo is the reference SDR repository behind a session in which time passes: each
+// command is entered no later than the caller's deadline and either succeeds at once, fails
+// after an arbitrary delay, or is lost (fails at the context's deadline).
+type vTimedRepo struct {
+	refSDRRepo
+	deadline int64
+	calls    int
+}
+
+func (b *vTimedRepo) step(ctx context.Context) error {
+	b.calls++
+	now := vNowNs()
+	vAssert(now <= b.deadline+vAllowance, "c13-no-command-started-after-the-context's-deadline")
+	dl, ok := vCtxDeadlineNs(ctx)
+	vAssert(ok && dl <= b.deadline+vAllowance, "c13-commands-carry-the-caller's-deadline")
+	if !ok {
+		vEnd()
+	}
+	if dl <= now {
+		return vErrTimeout
+	}
+	switch vChoice(3) {
+	case 0:
+		return nil
+	case 1: // a failure reported after a delay (e.g. an invalid reply)
+		d := int64(vU32()) * 1000
+		vAssume(d <= 60*vMs)
+		vAssume(now+d < dl)
+		vSleepUntilNs(now + d)
+		return vErrTimeout
+	}
+	vSleepUntilNs(dl)
+	return vErrTimeout
+}
+
+func (b *vTimedRepo) GetSDRRepositoryInfo(ctx context.Context) (*ipmi.GetSDRRepositoryInfoRsp, error) {
+	if err := b.step(ctx); err != nil {
+		return nil, err
+	}
+	return b.refSDRRepo.GetSDRRepositoryInfo(ctx)
+}
+
+func (b *vTimedRepo) ReserveSDRRepository(ctx context.Context) (*ipmi.ReserveSDRRepositoryRsp, error) {
+	if err := b.step(ctx); err != nil {
+		return nil, err
+	}
+	return b.refSDRRepo.ReserveSDRRepository(ctx)
+}
+
+func (b *vTimedRepo) SendCommand(ctx context.Context, c ipmi.Command) (ipmi.CompletionCode, error) {
+	if err := b.step(ctx); err != nil {
+		return 0, err
+	}
+	return b.refSDRRepo.SendCommand(ctx, c)
+}
+
+// C13 (SDR repository retrieval): RetrieveSDRRepository retries a failed walk with an
+// exponential back-off; for every pattern of failing and lost commands it starts no command
+// after its context's deadline and returns by it.
+func VerifC13_SDRRetrieval() {
+	d := []int64{0, 40 * vMs}[vChoice(2)]
+	b := &vTimedRepo{deadline: d}
+	b.records = []refRecord{{id: 1, typ: 0xC0, body: []byte{1, 2, 3}}}
+	b.reservation = 7
+	if vBool() { // the repository is modified during the first walk
+		b.changeAt = 1
+		b.newRecords = []refRecord{{id: 2, typ: 0xC0, body: []byte{4}}}
+	}
+	vSetRetryBound(4)
+	vClockStart()
+	ctx, cancel := context.WithTimeout(context.Background(), time.Duration(d))
+	defer cancel()
+	_, err := RetrieveSDRRepository(ctx, b)
+	vAssert(vNowNs() <= d+vAllowance, "c13-call-returns-by-its-context's-deadline")
+	if err == nil {
+		vReached("?success")
+	} else {
+		vReached("?error")
+	}
+	if d == 0 {
+		vAssert(err != nil, "c13-expired-context-gives-an-error")
+	}
+	vReached("end")
+}
